@@ -545,6 +545,21 @@ pub fn encode_epoch(v: &RV, e: Epoch) -> Vec<u8> {
     out
 }
 
+/// One epoch throughout, with legal but unusual forms (segmented byte strings, wide varints).
+pub fn encode_epoch_exotic(v: &RV, e: Epoch, rng: &mut Rng) -> Vec<u8> {
+    let mut out = Vec::new();
+    let mut r2 = Rng::new(rng.next_u64());
+    encode(
+        v,
+        &mut EncStyle {
+            epoch: EpochChoice::All(e),
+            exotic: Some(&mut r2),
+        },
+        &mut out,
+    );
+    out
+}
+
 pub fn encode_mixed(v: &RV, rng: &mut Rng, exotic: bool) -> Vec<u8> {
     let mut out = Vec::new();
     let mut r2 = Rng::new(rng.next_u64());
